@@ -79,6 +79,12 @@ def run(env, tier, seed, broken=None):
         for b in NUMSTR:
             cid = 'ns%d' % n; n += 1
             cases.append({'id': cid, 'src': '%s %s == %s;\n%s %s != %s;\n%s %s + %s;\n%s %s < %s;\n' % (lang.PRINT, a, b, lang.PRINT, a, b, lang.PRINT, a, b, lang.PRINT, a, b)})
+    # the result of + with a string operand IS a string, whatever the other operand was: used again, compared, indexed
+    for a in ['1', '7', '0.5', '-0', '2 ** 53', '"7"', '"৭"', '""', '"a"', lang.TRUE, lang.NIL]:
+        for e in ['""', '"" + ""', '"x"']:
+            cid = 'ns%d' % n; n += 1
+            cases.append({'id': cid, 'src': '%s t = %s + %s;\n%s t + 2;\n%s 2 + t;\n%s t == "7";\n%s t == 7;\n%s (%s + %s) + (%s + %s);\n%s u = %s + %s;\n%s u + 2;\n%s u * 2;\n' % (
+                lang.VAR, a, e, lang.PRINT, lang.PRINT, lang.PRINT, lang.PRINT, lang.PRINT, a, e, e, a, lang.VAR, e, a, lang.PRINT, lang.PRINT)})
     nrand = 4000 if tier == 'quick' else 150000
     for op in ['+', '-', '*', '/', '%', '<', '<=', '>', '>=', '==', '&', '|', '^', '<<', '>>', '**']:
         for _ in range(nrand // 16):
